@@ -305,7 +305,8 @@ def _run(prog, chk):
             def tparse(I, p, node, args):
                 used.append(str(args[3]))
                 return 0
-            inputs = {cpn: Ptr("ctx"), rawp: Ptr("raw"), lenp: 20, tp: Ptr("out"), "ctx->options[%d]" % oi: ver}
+            other_oi = prog.const("KSI_OPT_%s_PDU_VER" % ("EXT" if OPT == "AGGR" else "AGGR"))
+            inputs = {cpn: Ptr("ctx"), rawp: Ptr("raw"), lenp: 20, tp: Ptr("out"), "ctx->options[%d]" % oi: ver, "ctx->options[%d]" % other_oi: (V2 if ver == V1 else V1)}
             I = Interp(fp, inputs=inputs, call_model=succeed_model(prog, {"KSI_FTLV_memRead": memread, "KSI_TlvTemplate_parse": tparse}),
                        on_unknown="stop", prog=prog)
             paths = I.run()
@@ -331,7 +332,10 @@ def _run(prog, chk):
         tpn = fc.params[0]["n"]
         for ver in (V1, V2, 7):
             called = []
-            I = Interp(fc, inputs={tpn: Ptr("pdu"), "pdu->ctx": Ptr("ctx"), "ctx->options[%d]" % oi: ver, "pdu->confRequest": 0, "pdu->confResponse": 0,
+            # the other service's version option holds the opposite value: a function that consults it picks the wrong range
+            other_oi = prog.const("KSI_OPT_%s_PDU_VER" % ("EXT" if OPT == "AGGR" else "AGGR"))
+            I = Interp(fc, inputs={tpn: Ptr("pdu"), "pdu->ctx": Ptr("ctx"), "ctx->options[%d]" % oi: ver, "ctx->options[%d]" % other_oi: (V2 if ver == V1 else V1),
+                                   "pdu->confRequest": 0, "pdu->confResponse": 0,
                                    fc.params[1]["n"]: 1, fc.params[2]["n"]: Ptr("key"), fc.params[3]["n"]: Ptr("out")},
                        call_model=succeed_model(prog, {"pdu_calculateHmac": lambda I, p, n, a: called.append("v1") or 0,
                                                        "pdu_calculateHmac_v2": lambda I, p, n, a: called.append("v2") or 0}), on_unknown="stop", prog=prog)
